@@ -159,6 +159,28 @@ inline bool step(std::vector<Tok> &s, const std::vector<MacroDef> &defs, const s
   return true;
 }
 
+// canonical text of a token stream with temporaries renamed by first occurrence (for comparison modulo renaming)
+inline std::vector<std::pair<int, std::string>> canon_stream(const std::vector<Tok> &s) {
+  std::map<std::string, int> ren; std::vector<std::pair<int, std::string>> out;
+  for (auto &t : s) { if (t.k == ID && !t.text.empty() && t.text[0] == '#') { if (!ren.count(t.text)) { int n = (int)ren.size(); ren[t.text] = n; } out.push_back({t.k, "#" + std::to_string(ren[t.text])}); } else out.push_back({t.k, t.text}); }
+  return out;
+}
+
+// every stream that one rewriting step may produce (several only when candidates tie on priority, start and length)
+inline std::vector<std::vector<Tok>> step_choices(const std::vector<Tok> &s, const std::vector<MacroDef> &defs, const std::vector<bool> &usable, int stepno, bool *ambiguous = nullptr) {
+  std::vector<Tok> probe = s; StepInfo si; std::vector<std::vector<Tok>> out;
+  if (!step(probe, defs, usable, stepno, &si)) return out;
+  if (ambiguous && si.ambiguous) *ambiguous = true;
+  for (size_t c = 0; c < si.cands.size(); c++) {
+    std::vector<Tok> rep = instantiate(defs[si.cand_macro[c]], si.cands[c], s, stepno);
+    std::vector<Tok> o(s.begin(), s.begin() + si.start); o.insert(o.end(), rep.begin(), rep.end()); o.insert(o.end(), s.begin() + si.end, s.end());
+    bool dup = false; for (auto &x : out) if (canon_stream(x) == canon_stream(o)) dup = true;
+    if (!dup) out.push_back(o);
+  }
+  if (out.empty()) out.push_back(probe);
+  return out;
+}
+
 struct Expanded { std::vector<Tok> toks; long long steps = 0; bool exhausted = false; /* rewriting still possible after the budget */ bool tie = false, ambiguous = false; };
 
 inline Expanded expand(std::vector<Tok> s, const std::vector<MacroDef> &defs, const std::vector<bool> &usable, long long budget) {
@@ -166,13 +188,6 @@ inline Expanded expand(std::vector<Tok> s, const std::vector<MacroDef> &defs, co
   for (long long i = 0; i < budget; i++) { StepInfo si; if (!step(s, defs, usable, (int)i, &si)) { e.toks = s; return e; } e.steps++; e.tie |= si.tie; e.ambiguous |= si.ambiguous; }
   std::vector<Tok> probe = s; StepInfo si; e.exhausted = step(probe, defs, usable, (int)budget, &si);
   e.toks = s; return e;
-}
-
-// canonical text of a token stream with temporaries renamed by first occurrence (for comparison modulo renaming)
-inline std::vector<std::pair<int, std::string>> canon_stream(const std::vector<Tok> &s) {
-  std::map<std::string, int> ren; std::vector<std::pair<int, std::string>> out;
-  for (auto &t : s) { if (t.k == ID && !t.text.empty() && t.text[0] == '#') { if (!ren.count(t.text)) { int n = (int)ren.size(); ren[t.text] = n; } out.push_back({t.k, "#" + std::to_string(ren[t.text])}); } else out.push_back({t.k, t.text}); }
-  return out;
 }
 
 inline std::vector<MacroDef> standard_macros() {
